@@ -324,6 +324,8 @@ static void case_statistics(Rng& rng, uint64_t index)
 	int n = (index % 10 == 0) ? rng.irange(1, 3) : rng.irange(1, 200);
 	std::vector<double> d(n);
 	double loc = rng.coin(0.5) ? 0.0 : rng.mag(1e-2, 1e3), sc = rng.loguni(1e-3, 1e3);
+	if(index % 4 == 3)
+		loc = rng.sign() * sc * rng.loguni(1e2, 1e5);	// offset large compared with the scatter (conditioning of one-pass formulas)
 	for(auto& x : d)
 		x = loc + sc * (rng.coin(0.2) ? std::round(rng.uni(-3, 3)) : rng.normal());
 	set_params(J().i("n", n).d("location", loc).d("scale", sc).vec("data", d));
@@ -399,8 +401,10 @@ static void case_statistics(Rng& rng, uint64_t index)
 		{
 			judge("equal-weights-give-the-plain-mean", std::fabs(wa[0] - mean), 4 * tol_m, [&] { return J().d("weighted", wa[0]).d("mean", mean); });
 			double se = sd / std::sqrt((double) n);
-			// Cochran's formula subtracts terms of size (w x)^2: rounding scale n eps amax^2 / (n * spread) relative to se^2
-			double tol_se = 64 * n * EPS * (double) (amax * amax) / (n * (double) std::max(spread, (ld) 1e-300)) / std::sqrt((double) n) + 16 * EPS * se + 1e-300;
+			// Cochran's formula as written forms w x - A wbar term by term: each deviation carries a rounding error of (n+2) eps w amax (the n from wbar = wsum/N),
+			// i.e. a relative error (n+2) eps amax/spread of the deviations and of the standard error - linear in amax/spread.  (A formula that expands the
+			// squares instead loses eps (amax/spread)^2: seeded change C19-r2m1.)
+			double tol_se = 8 * (n + 2) * EPS * (double) (amax / std::max(spread, (ld) 1e-300)) * se + 16 * EPS * se + 1e-300;
 			if((double) spread > 1e-6 * (double) amax)
 				judge("equal-weights-give-standard-error-s-over-sqrtN", std::fabs(wa[1] - se), tol_se, [&] { return J().d("weighted_error", wa[1]).d("s_over_sqrtN", se); });
 			else
